@@ -28,7 +28,7 @@ def run_one(prop, name):
     ov = {os.path.join(REPO, f): os.path.join(work, f) for f in files}
     ovf = os.path.join(work, "overlay.json")
     json.dump(ov, open(ovf, "w"))
-    cmd = [os.path.join(V, "bin", "govc"), "verify", "--property", prop, "--no-evidence", "--overlay", ovf, "--smtdir", os.path.join(work, "smt"), "-j", "3"]
+    cmd = [os.path.join(V, "bin", "govc"), "verify", "--repo", REPO, "--property", prop, "--no-evidence", "--overlay", ovf, "--smtdir", os.path.join(work, "smt"), "-j", "3"]
     if expect != "PASS":
         cmd += ["--expect-fail", expect]
     r = subprocess.run(cmd, capture_output=True, text=True)
